@@ -156,6 +156,11 @@ func vnetParse(ops []string) (sc vnetScenario, ok bool) {
 			return sc, false
 		}
 	}
+	if sc.hsdrop {
+		// scripted handshake-loss cases run with the default idle / handshake timeouts, so the only faults
+		// are the scripted ones: random loss on top could legitimately outlast the 30 s idle timeout
+		sc.faultDatagrams = 0
+	}
 	return sc, ok
 }
 
